@@ -632,11 +632,19 @@ class FlowIRExperimentConfiguration:
                 out_errors.append(e)
 
         if create_instance_files and (exists_manifest is False or update_instance_files is True):
+            temp_file = '%s.%s.tmp' % (manifest_file, uuid.uuid4())
             try:
-                with open(manifest_file, 'w') as f:
+                with open(temp_file, 'w') as f:
                     experiment.model.frontends.flowir.yaml_dump(self.manifestData, f)
             except Exception as e:
+                if os.path.exists(temp_file):
+                    os.remove(temp_file)
                 out_errors.append(e)
+            else:
+                try:
+                    os.rename(temp_file, manifest_file)
+                except Exception as e:
+                    out_errors.append(e)
 
     @property
     def manifestData(self) -> Dict[str, str]:
